@@ -54,7 +54,7 @@ def child_env(extra=None):
     env["JAXLEY_VERIF"] = "1"
     env["JAX_PLATFORMS"] = "cpu"
     env["JAX_ENABLE_X64"] = "1"
-    env.setdefault("XLA_FLAGS", "--xla_force_host_platform_device_count=1")
+    env.setdefault("XLA_FLAGS", "--xla_cpu_multi_thread_eigen=false intra_op_parallelism_threads=1")
     env["OMP_NUM_THREADS"] = "1"
     env["OPENBLAS_NUM_THREADS"] = "1"
     env["MKL_NUM_THREADS"] = "1"
